@@ -106,7 +106,7 @@ theorem get_full_packet_number_eq_model (srv : Bool) (pn : Bytes) (pnS pnC : Nat
     omega
   cases srv
   · simp only [Gen.Py.get_full_packet_number, hw, hb, Bool.false_eq_true, if_false, mask_or' _ _ _ ht, Bool.and_eq_true,
-      decide_eq_true_eq, pn_arith _ _ _ _ hW ht]
+      decide_eq_true_eq, Bool.not_eq_true', decide_eq_false_iff_not, Int.not_lt, Int.not_le, pn_arith _ _ _ _ hW ht]
     have hR : rfcDecode (2 ^ (8 * pn.length)) (2 ^ 62) pnC (Bytes.beNat pn) < 256 ^ 8 := by
       have h1 := rfcDecode_lt (2 ^ (8 * pn.length)) (2 ^ 62) pnC (Bytes.beNat pn) (by omega) ht
       have h2 : 2 ^ (8 * pn.length) ≤ 2 ^ 32 := Nat.pow_le_pow_right (by omega) (by omega)
@@ -116,7 +116,7 @@ theorem get_full_packet_number_eq_model (srv : Bool) (pn : Bytes) (pnS pnC : Nat
     have := pn_finish false pn pnS pnC _ hR (by simp only [implDecode]; rfl)
     simpa [apply_ite Prod.fst, apply_ite Prod.snd] using this
   · simp only [Gen.Py.get_full_packet_number, hw, hb, if_true, mask_or' _ _ _ ht, Bool.and_eq_true,
-      decide_eq_true_eq, pn_arith _ _ _ _ hW ht]
+      decide_eq_true_eq, Bool.not_eq_true', decide_eq_false_iff_not, Int.not_lt, Int.not_le, pn_arith _ _ _ _ hW ht]
     have hR : rfcDecode (2 ^ (8 * pn.length)) (2 ^ 62) pnS (Bytes.beNat pn) < 256 ^ 8 := by
       have h1 := rfcDecode_lt (2 ^ (8 * pn.length)) (2 ^ 62) pnS (Bytes.beNat pn) (by omega) ht
       have h2 : 2 ^ (8 * pn.length) ≤ 2 ^ 32 := Nat.pow_le_pow_right (by omega) (by omega)
@@ -233,8 +233,7 @@ theorem handle_alert_eq_model {δ : Type} (s : Session.St δ) (level : UInt8) :
   unfold Gen.Py.handle_alert Session.alert
   have h1 : (level.toNat = 1) = (level = 1) := by
     rw [← UInt8.toNat_inj]; rfl
-  simp only [Bool.and_eq_true, decide_eq_true_eq, h1]
-  split <;> rfl
+  by_cases h : level = 1 <;> by_cases h2 : s.ver = some .tls13 <;> simp [h1, h, h2]
 
 example : Gen.Py.handle_alert 1 (some .tls12) true true = { can_decrypt := true, client_hello_seen := true } ∧
     Gen.Py.handle_alert 1 (some .tls13) true true = { can_decrypt := false, client_hello_seen := false } ∧
@@ -266,6 +265,15 @@ theorem server_hello_version_eq_model {δ : Type} (s : Session.St δ) (is13 : Bo
 example : Gen.Py.server_hello_version true [3, 3] [2, 0, 0, 40, 3, 3] none true = { tls_version := some .tls13, can_decrypt := true } ∧
     Gen.Py.server_hello_version false [3, 1] [2, 0, 0, 40, 3, 9] (some .tls12) true = { tls_version := some .tls12, can_decrypt := false } := by
   decide
+
+/-- the first statement of `handle_tls_server_hello` is the model's `latch` -/
+theorem server_hello_latch_eq_model {δ : Type} (s : Session.St δ) :
+    Gen.Py.server_hello_latch s.chSeen s.canDecrypt = { can_decrypt := (Session.latch s).canDecrypt } := by
+  unfold Gen.Py.server_hello_latch Session.latch
+  cases s.chSeen <;> simp
+
+example : Gen.Py.server_hello_latch true false = { can_decrypt := true } ∧
+    Gen.Py.server_hello_latch false false = { can_decrypt := false } := by decide
 
 /-! ### tlexport/main.py -/
 
